@@ -28,6 +28,7 @@ import time
 
 from . import lib, smtref
 
+smtref.set_int_range(4)
 PY = "/venv/bin/python"
 SMTREF = os.path.join(lib.VERIF, "harness", "smtref.py")
 INT_RANGE = 4
@@ -50,7 +51,7 @@ ASSUMPTIONS = [
 ]
 RULE = ("histories: (a) the witnesses of the clauses repaired by fixes C17 a-e (regression), (b) user-legal histories over a 13-call alphabet: all up to length 2 + a sample of length 3 (thorough: all up to length 4), "
         "(c) random histories with one-level push/pop, no reset, value queries last, (d) random histories stressing one repaired clause each; a quarter of (c),(d) draws from a 40-symbol pool of mixed sorts with formulas of 7..33 distinct free symbols (sizes 7,8,9,15,16,17,31,32,33 explicitly), "
-        "(d'') names: a custom sort and a symbol with the SAME name (both arrival orders, one assertion or several, across push / pop(n) / reset, first use popped before the second arrives), a symbol named like its own sort, sorts named like theory functions / auxiliary let names / needing quotes, symbols named Int, 0x, .def_k; 15% of (c),(d) add such names to their pool; paramsort: two instances of a sort symbol with arguments; sortvalue: value queries on custom-sort symbols, "
+        "(d'') names: a custom sort and a symbol with the SAME name (both arrival orders, one assertion or several, across push / pop(n) / reset, first use popped before the second arrives), a symbol named like its own sort, sorts named like theory functions / auxiliary let names / needing quotes, symbols named Int, 0x, .def_k; 15% of (c),(d) add such names to their pool; sortpos: a custom sort (arity 0 / instance of the arity-2 symbol) that occurs ONLY in quantifier binders or as index sort of constant array values, in closed formulas or formulas whose free symbols are declared already (often the symbol NAMED like the sort), first use at level 0 / in a pushed level / popped and used again / after reset, via add_assertion and the one-shot checks; paramsort: two instances of a sort symbol with arguments; sortvalue: value queries on custom-sort symbols, "
         "(d') poplevels: symbols declared at different levels, one pop(n) with n in 2..4, reuse of symbols of the lowest/middle/highest popped level in small and large formulas, with/without a small formula first, optionally after push / reset_assertions; widemodel: 15..33 symbols at one level then get_model / get_value of wide terms, "
         "(value queries anywhere / get_model at any depth / push,pop with n in 0..3 / reset_assertions / value query on an unasserted symbol), (e) factory one-shot shortcuts; "
         "distinct = distinct (history, formulas) inputs")
@@ -79,6 +80,11 @@ PARAM_SORTS = {"(Pair Int Int)": ("Pair", ["Int", "Int"]), "(Pair Bool Bool)": (
 SORT_ELEMS.update({"(Pair Int Int)": ["q0", "q1"], "(Pair Bool Bool)": ["r0", "r1"]})
 POOL += [("q0", "U:(Pair Int Int)"), ("q1", "U:(Pair Int Int)"), ("r0", "U:(Pair Bool Bool)"), ("r1", "U:(Pair Bool Bool)"),
          ("Pair", "Bool")]
+# quantifier-bound variables: two per custom sort (never free)
+BOUND = {}
+for _k, _so in enumerate(["U:" + n for n in SORTS] + ["U:(Pair Int Int)"]):
+    BOUND[_so] = ["z%da" % _k, "z%db" % _k]
+    POOL += [(BOUND[_so][0], _so), (BOUND[_so][1], _so)]
 # symbols (of built-in sorts) named like a custom sort / oddly; b0, p1, u0 above collide too
 ODD_SYMS = [("S", "Bool"), ("T", "BV"), (".def_0", "Bool"), ("a b", "Bool"), ("Int", "Bool"), ("0x", "Int"), (".def_1", "BV")]
 POOL += ODD_SYMS
@@ -142,6 +148,19 @@ def ev(t, env):
         return t[1]
     if op == "bvconst":
         return _bv(t[1])
+    if op in ("exists", "forall"):      # over the finite universes (two values per custom sort)
+        for vals in itertools.product(*[domain(SYM_SORT[n]) for n in t[1]]):
+            e2 = dict(env)
+            e2.update(zip(t[1], vals))
+            if bool(ev(t[2], e2)) != (op == "forall"):
+                return op != "forall"
+        return op == "forall"
+    if op == "constarr":                # array = tuple of element values over the index universe
+        return (ev(t[2], env),) * len(domain(t[1]))
+    if op in ("select", "store"):
+        arr, idx = ev(t[1], env), ev(t[2], env)
+        k = domain("U:" + idx[1]).index(idx)
+        return arr[k] if op == "select" else arr[:k] + (ev(t[3], env),) + arr[k + 1:]
     a = [ev(x, env) for x in t[1:]]
     if op == "not":
         return not a[0]
@@ -161,9 +180,9 @@ def ev(t, env):
         return a[0] <= a[1]
     if op == "lt":
         return a[0] < a[1]
-    if op in ("eq", "bveq", "ueq"):
+    if op in ("eq", "bveq", "ueq", "aeq"):
         return a[0] == a[1]
-    if op == "uite":
+    if op in ("uite", "aite"):
         return a[1] if a[0] else a[2]
     if op == "plus":
         return a[0] + a[1]
@@ -206,14 +225,38 @@ def ev(t, env):
     raise ValueError(op)
 
 
-def syms(t, acc=None):
+def syms(t, acc=None, bound=frozenset()):
+    """FREE symbols of the term."""
     acc = set() if acc is None else acc
     if t[0] == "var":
-        acc.add(t[1])
+        if t[1] not in bound:
+            acc.add(t[1])
+    elif t[0] in ("exists", "forall"):
+        syms(t[2], acc, bound | set(t[1]))
+    elif t[0] == "constarr":
+        syms(t[2], acc, bound)
     else:
         for x in t[1:]:
             if isinstance(x, (tuple, list)):
-                syms(x, acc)
+                syms(x, acc, bound)
+    return acc
+
+
+def sorts_in(t, acc=None):
+    """Custom sorts that occur in binders / array constants of the term (harness AST)."""
+    acc = set() if acc is None else acc
+    if t[0] in ("exists", "forall"):
+        for n in t[1]:
+            if is_usort(SYM_SORT[n]):
+                acc.add(SYM_SORT[n][2:])
+        sorts_in(t[2], acc)
+    elif t[0] == "constarr":
+        acc.add(t[1][2:])
+        sorts_in(t[2], acc)
+    elif t[0] != "var":
+        for x in t[1:]:
+            if isinstance(x, (tuple, list)):
+                sorts_in(x, acc)
     return acc
 
 
@@ -231,9 +274,15 @@ def to_pysmt(t, mgr, types):
         return mgr.Int(t[1])
     if op == "bvconst":
         return mgr.BV(t[1] % (1 << BVW), BVW)
+    if op in ("exists", "forall"):
+        vs = [mgr.Symbol(n, pysmt_type(SYM_SORT[n], mgr, types)) for n in t[1]]
+        return (mgr.Exists if op == "exists" else mgr.ForAll)(vs, R(2))
+    if op == "constarr":
+        return mgr.Array(pysmt_type(t[1], mgr, types), R(2))
     table = {"not": mgr.Not, "and": mgr.And, "or": mgr.Or, "xor": mgr.Xor, "iff": mgr.Iff, "implies": mgr.Implies,
              "ite": mgr.Ite, "iite": mgr.Ite, "bvite": mgr.Ite, "le": mgr.LE, "lt": mgr.LT, "eq": mgr.Equals,
-             "bveq": mgr.Equals, "ueq": mgr.Equals, "uite": mgr.Ite, "plus": mgr.Plus, "minus": mgr.Minus, "times": mgr.Times,
+             "bveq": mgr.Equals, "ueq": mgr.Equals, "uite": mgr.Ite, "aeq": mgr.Equals, "aite": mgr.Ite,
+             "select": mgr.Select, "store": mgr.Store, "plus": mgr.Plus, "minus": mgr.Minus, "times": mgr.Times,
              "bvult": mgr.BVULT, "bvule": mgr.BVULE, "bvslt": mgr.BVSLT, "bvadd": mgr.BVAdd, "bvsub": mgr.BVSub,
              "bvmul": mgr.BVMul, "bvand": mgr.BVAnd, "bvor": mgr.BVOr, "bvxor": mgr.BVXor, "bvnot": mgr.BVNot,
              "bvneg": mgr.BVNeg, "bvudiv": mgr.BVUDiv, "bvurem": mgr.BVURem, "bvshl": mgr.BVLShl, "bvlshr": mgr.BVLShr}
@@ -572,6 +621,11 @@ def random_history(rnd, cls, wide=False, names=False):
         pool = list(dict.fromkeys(pool + [rnd.choice(ODD_SYMS)[0]]))
 
     def formula():
+        usorts = sorted(set(SYM_SORT[n] for n in pool if is_usort(SYM_SORT[n]) and SYM_SORT[n] in BOUND))
+        if names and usorts and rnd.random() < 0.25:
+            bools = [n for n in pool if SYM_SORT[n] == "Bool"]
+            f, _ = sort_atom(rnd, rnd.choice(usorts), rnd.choice(bools) if bools and rnd.random() < 0.5 else None)
+            return f if rnd.random() < 0.5 else (rnd.choice(["and", "or"]), f, gen_formula(rnd, pool))
         if not wide:
             return gen_formula(rnd, pool)
         r = rnd.random()
@@ -743,6 +797,105 @@ def poplevels_history(rnd):
             if rnd.random() < 0.5 and ideal.live_syms():
                 do(("get_value", ("var", rnd.choice(sorted(ideal.live_syms())))))
             do(("get_model",))
+    return h
+
+
+def sort_atom(rnd, so, p=None):
+    """A formula in which the custom sort `so` ("U:...") occurs ONLY in quantifier binders or as
+    index sort of constant array values (no free symbol of that sort).  Returns (formula, closed
+    truth value or None when it depends on the Bool symbol p)."""
+    a, b = BOUND[so]
+    va, vb = ("var", a), ("var", b)
+    q2 = ("forall", (a, b), ("ueq", va, vb))
+    c = rnd.randint(1, 3)
+    table = {
+        "q1": (("exists", (a, b), ("not", ("ueq", va, vb))), True),
+        "q2": (q2, False),
+        "nq2": (("not", q2), True),
+        "q3": (("forall", (a,), ("exists", (b,), ("not", ("ueq", va, vb)))), True),
+        "a2": (("exists", (a,), ("eq", ("select", ("store", ("constarr", so, ("iconst", 0)), va, ("iconst", c)), va), ("iconst", c))), True),
+        "a3": (("forall", (a,), ("eq", ("select", ("constarr", so, ("iconst", c)), va), ("iconst", c))), True),
+    }
+    kinds = ["q1", "q1", "nq2", "q3", "a2", "a3", "q2"]
+    if p is not None:
+        # (ite p A1 A0) = A0  <=>  not p: the sort is only the index sort of array constants
+        table["a1"] = (("aeq", ("aite", ("var", p), ("constarr", so, ("iconst", 1)), ("constarr", so, ("iconst", 0))),
+                        ("constarr", so, ("iconst", 0))), None)
+        kinds += ["a1", "a1"]
+    return table[rnd.choice(kinds)]
+
+
+def sortpos_history(rnd):
+    """WHERE a sort can occur: a custom sort (arity 0 or an instance of the arity-2 one) that occurs
+    only in binders / array constants of formulas that are closed or whose free symbols are all
+    declared already; first use at level 0, inside pushed levels, popped and used again, after
+    reset_assertions; through add_assertion and the one-shot checks; the declared symbol is often
+    the one NAMED like the sort."""
+    ideal = Ideal()
+    h = []
+
+    def do(call):
+        ideal.step(call)
+        h.append(call)
+
+    sn = rnd.choice(SORTS + ["(Pair Int Int)"])
+    so = "U:" + sn
+    same = sn if SYM_SORT.get(sn) == "Bool" else None
+    p = same if (same and rnd.random() < 0.6) else rnd.choice(["b0", "b1", "p2", "Int", "Pair"])
+    plit = ("not", ("var", p))
+
+    def use(first_true_only=False):
+        for _ in range(20):
+            f, truth = sort_atom(rnd, so, p if rnd.random() < 0.5 else None)
+            if truth is False and first_true_only:
+                continue
+            return f, truth
+        return sort_atom(rnd, so)
+
+    def assert_use():
+        f, truth = use(first_true_only=True)
+        r = rnd.random()
+        if r < 0.45 and p in ideal.declared():
+            f = (rnd.choice(["and", "or"]), plit, f) if rnd.random() < 0.7 else ("and", f, plit)
+        elif r < 0.55:
+            f = ("and", f, gen_wide(rnd, wide_names(rnd, rnd.choice([1, 2, 9]))))
+        do(("add", f))
+
+    def check_use():
+        f, truth = use()
+        k = rnd.choice(["is_sat", "is_valid", "is_unsat"])
+        if ideal.cheap([("not", f) if k == "is_valid" else f]):
+            do((k, f))
+
+    if rnd.random() < 0.7:
+        do(("add", plit))
+    if rnd.random() < 0.2:
+        do(("solve",))
+    where = rnd.choice(["level0", "level0", "pushed", "popped-reuse", "reset-reuse", "mixed"])
+    if where != "level0":
+        do(("push", rnd.choice([1, 1, 2])))
+    (assert_use if rnd.random() < 0.65 else check_use)()
+    if rnd.random() < 0.4 and ideal.cheap():
+        do(("solve",))
+    if rnd.random() < 0.4:
+        (assert_use if rnd.random() < 0.5 else check_use)()
+    if where in ("popped-reuse", "mixed") and ideal.depth() > 0:
+        do(("pop", rnd.randint(1, ideal.depth())))
+        (assert_use if rnd.random() < 0.7 else check_use)()          # the sort must be declared again
+    if where in ("reset-reuse", "mixed"):
+        do(("reset",))
+        if rnd.random() < 0.5:
+            do(("add", plit))
+        (assert_use if rnd.random() < 0.7 else check_use)()
+    if rnd.random() < 0.3 and not sn.startswith("("):
+        # the sort comes into scope with a free element symbol; binder-only uses before / after
+        do(("add", wide_literal(rnd, rnd.choice(SORT_ELEMS[sn]), True)))
+        assert_use()
+    if rnd.random() < 0.3 and ideal.depth() > 0:
+        do(("pop", ideal.depth()))
+        assert_use()
+    if ideal.cheap() and rnd.random() < 0.6:
+        do(("solve",))
     return h
 
 
@@ -1013,7 +1166,7 @@ def run_history(h, logpath, mode="incremental"):
     mgr = env.formula_manager
     env.factory.add_generic_solver("smtref", [PY, SMTREF, "--log", logpath, "--idle-timeout", "8", "--int-range", str(INT_RANGE)],
                                    [pysmt.logics.QF_AUFBVLIRA])
-    obs = {"results": [], "exc": None, "fvs": [], "timeout": False}
+    obs = {"results": [], "exc": None, "fvs": [], "sorts": {}, "timeout": False}
     old = signal.signal(signal.SIGALRM, _alarm)
     signal.alarm(20)
     s = None
@@ -1039,6 +1192,7 @@ def run_history(h, logpath, mode="incremental"):
                     F = to_pysmt(call[1], mgr, types)
                     G = mgr.Not(F) if kind == "is_valid" else F
                     fv = [x.symbol_name() for x in G.simplify().get_free_variables()]
+                    obs["sorts"][k] = [ty.decl.name for ty in env.typeso.get_types(G.simplify(), custom_only=True)]
                     if kind == "add":
                         s.add_assertion(F)
                     else:
@@ -1077,6 +1231,7 @@ def run_history(h, logpath, mode="incremental"):
                     F = to_pysmt(call[1], mgr, types)
                     G = mgr.Not(F) if call[0] == "is_valid" else F
                     fv = [x.symbol_name() for x in G.simplify().get_free_variables()]
+                    obs["sorts"][k] = [ty.decl.name for ty in env.typeso.get_types(G.simplify(), custom_only=True)]
                 elif call[0] == "get_value":
                     fv = [x.symbol_name() for x in to_pysmt(call[1], mgr, types).get_free_variables()]
             except Exception:
@@ -1140,7 +1295,7 @@ def _worker(job):
         obs = run_history(h, logpath, mode)
     except BaseException as ex:  # noqa
         obs = {"results": [], "exc": {"at": -1, "type": "HarnessError:" + type(ex).__name__, "msg": str(ex)[:300]}, "fvs": [],
-               "timeout": False, "log": [], "end": None}
+               "sorts": {}, "timeout": False, "log": [], "end": None}
     try:
         os.remove(logpath)
     except OSError:
@@ -1441,14 +1596,20 @@ def coq_annotated(names):
     return "[" + "; ".join(one(n) for n in names) + "]"
 
 
-def coq_history(h, fvs):
+def coq_history(h, fvs, sorts=None):
+    sorts = sorts or {}
     out = []
     for k, call in enumerate(h):
         kind = call[0]
         fv = fvs[k] if k < len(fvs) and fvs[k] is not None else None
         if kind in ("add", "is_sat", "is_valid", "is_unsat"):
             names = fv if fv is not None else sorted(syms(call[1]))
-            atom = "(FAtom %d %s)" % (k, coq_annotated(names))
+            # custom sorts of the asserted formula as the implementation's type walk reports them
+            # (sort symbols: an instance counts as its declaration); fall back to the harness AST
+            srt = sorts.get(k)
+            if srt is None:
+                srt = sorted(PARAM_SORTS[x][0] if x in PARAM_SORTS else x for x in sorts_in(call[1]))
+            atom = "(FAtom %d %s [%s])" % (k, coq_annotated(names), "; ".join(str(SORT_ID[x]) for x in srt if x in SORT_ID))
             # the free symbols were taken from the formula that is really asserted (Not f for
             # is_valid), so the model's FNot wrapper changes nothing
             out.append({"add": "AAdd", "is_sat": "AIsSat", "is_valid": "AIsValid", "is_unsat": "AIsUnsat"}[kind] + " " + atom)
@@ -1502,7 +1663,7 @@ def coq_commands(log):
                 return None
             out.append("CDeclareSort %d" % SORT_ID[str(sx[1])])
         elif n == "assert":
-            out.append("CAssert (FAtom 0 (plain %s))" % coq_syms(names))
+            out.append("CAssert (FAtom 0 (plain %s) [])" % coq_syms(names))
         elif n == "push":
             out.append("CPush %d" % int(e["args"]))
         elif n == "pop":
@@ -1544,6 +1705,10 @@ def show_term(t):
         return str(t[1])
     if len(t) == 1:
         return t[0]
+    if t[0] in ("exists", "forall"):
+        return "%s([%s], %s)" % (t[0], ", ".join("%s:%s" % (n, SYM_SORT[n][2:]) for n in t[1]), show_term(t[2]))
+    if t[0] == "constarr":
+        return "Array(%s, %s)" % (t[1][2:], show_term(t[2]))
     return "%s(%s)" % (t[0], ", ".join(show_term(x) for x in t[1:]))
 
 
@@ -1617,14 +1782,14 @@ def run(tier):
         jobs.append((h, "incremental"))
         tags.append("witness:" + name)
     enum = enumerated_histories(3 if tier == "quick" else 4)
-    if tier == "quick" and len(enum) > 500:
+    if tier == "quick" and len(enum) > 440:
         short = [h for h in enum if len(h) <= 2]
         long_ = [h for h in enum if len(h) > 2]
-        enum = short + rnd.sample(long_, 500 - len(short))
+        enum = short + rnd.sample(long_, 440 - len(short))
     for h in enum:
         jobs.append((h, "incremental"))
         tags.append("enum")
-    nrand = {"fragment": 300, "values": 110, "modeldepth": 90, "multi": 160, "reset": 90, "mixed": 100, "valuefree": 40} if tier == "quick" else \
+    nrand = {"fragment": 260, "values": 110, "modeldepth": 90, "multi": 160, "reset": 90, "mixed": 100, "valuefree": 40} if tier == "quick" else \
             {"fragment": 4000, "values": 1500, "modeldepth": 800, "multi": 2000, "reset": 1200, "mixed": 1500, "valuefree": 300}
     for cls, n in nrand.items():
         for _ in range(n):
@@ -1637,6 +1802,7 @@ def run(tier):
     for fam, gen, n in (("poplevels", poplevels_history, 200 if tier == "quick" else 4000),
                         ("widemodel", widemodel_history, 60 if tier == "quick" else 800),
                         ("names", names_history, 200 if tier == "quick" else 3000),
+                        ("sortpos", sortpos_history, 160 if tier == "quick" else 3000),
                         ("paramsort", paramsort_history, 16 if tier == "quick" else 120),
                         ("sortvalue", sortvalue_history, 12 if tier == "quick" else 60)):
         for _ in range(n):
@@ -1715,7 +1881,7 @@ def run(tier):
         if cl is None:
             untranslatable.append(i)
             continue
-        cases.append((i, "(%s, %s, %s)" % (coq_history(h, obs["fvs"]), cl, lib.coq_bool(obs["exc"] is not None))))
+        cases.append((i, "(%s, %s, %s)" % (coq_history(h, obs["fvs"], obs.get("sorts")), cl, lib.coq_bool(obs["exc"] is not None))))
     files, meta = [], {}
     for k in range(0, len(cases), 120):
         body = HDR + "Definition cases : list (list api_call * list command * bool) := [\n %s ].\n" % ";\n ".join(c for _, c in cases[k:k + 120])
